@@ -1067,6 +1067,7 @@ def run(ctx):
     cases, dist = gen_cases(ctx, ctx.n(3000, 30000))
     st = selftest_stage(ctx, cases)
     res = {'disagreements': [], 'failures': []}
+    res['failures'] += common.threshold_failures('C06', ctx.quick())
     for v in st['violations'][:20] + st['trace_violations'][:20]:
         res['disagreements'].append({'stage': 'site-inventory-selftest', 'detail': v.get('kind') + ': ' + str(v.get('detail'))[:300],
                                      'input': v.get('input'), 'options': v.get('options')})
@@ -1140,6 +1141,9 @@ def shrink(f):
 
 
 def replay(payload):
+    _f = payload.get('failure') or {}
+    if _f.get('threshold_input'):
+        return common.threshold_replay('C06', _f)
     f = payload.get('failure')
     if not f or 'input' not in f:
         return {'fails': False, 'note': 'no concrete input'}
